@@ -32,6 +32,12 @@ def _drivers():
         h = T.H("conn")
         return [T.ruse(T.ruse(h, 1), 2), T.ruse(h, 3)]
 
+    def handle_chain_late():
+        # a two-step pipeline on the handle next to a second consumer of the ORIGINAL state that becomes ready late:
+        # fork numbers are per handle state, so the late consumer must not compete with the pipeline's second step
+        h = T.H("conn")
+        return [T.ruse(T.ruse(h, 1), 2), T.ruse(h, T.ident(3))]
+
     D = {
         "fan3": (lambda: [T.rleaf(1), T.rleaf(2), T.rleaf(3)], ("ok", [101, 102, 103]), [{"r": 1}, {"r": 2}, {"r": 3}]),
         "dup-late": (lambda: [T.rleaf(1), T.rleaf(T.ident(1)), T.rleaf(2)], ("ok", [101, 101, 102]), [{"r": 1}, {"r": 2}, {"r": 3}]),
@@ -57,6 +63,7 @@ def _drivers():
                            ("ok", [-1, [102, 103]]), [{"r": 1}, {"r": 2}]),
         "handles": (handle_pair, ("ok", None), [{"r": 1}, {"r": 2}]),
         "handle-chain": (handle_chain, ("ok", None), [{"r": 1}, {"r": 3}]),
+        "handle-chain-late": (handle_chain_late, ("ok", None), [{"r": 1}, {"r": 3}]),
         "handles-late-args": (handle_late, ("ok", None), [{"r": 1}, {"r": 2}]),
         "shared-object": (lambda: T.ident([T.mklist(1), T.mklist(T.ident(1))]), ("ok", [[1, 2], [1, 2]]), [{}]),
         "dup-both-wait": (lambda: [T.rleaf(9), T.rleaf(1), T.rleaf(T.ident(1))], ("ok", [109, 101, 101]), [{"r": 1}, {"r": 2}]),
